@@ -61,7 +61,11 @@ func rewrite(src []byte, augs []Augmentation) ([]byte, []PosAdjustment) {
 	//
 	// Sort all augs by Start offset to retain the above ordering while ensuring
 	// that augmentations get written to the `dst` Buffer in order.
-	sort.Slice(augs, func(i, j int) bool { return augs[i].Start() < augs[j].Start() })
+	//
+	// The sort has to be stable: FakePackage, FakeFunc and a leading "..." all
+	// start at the same offset, and a sort that may reorder them writes the
+	// fake func in front of the fake package clause.
+	sort.SliceStable(augs, func(i, j int) bool { return augs[i].Start() < augs[j].Start() })
 	for _, aug := range augs {
 		start, end := aug.Start(), aug.End()
 		dst.Write(src[pos:start])
